@@ -738,9 +738,12 @@ class Engine:
                     hfr = Frame(cm, dict(sfr.locals), closure=None)
                     hfr.is_spec_root = True
                     try:
+                        efr = Frame(cm, dict(ctx.ghost), closure=None)
+                        efr.locals.update(sfr.locals)
                         for gname, gexpr in hint.items():
                             # hint expressions range over the callee's parameters and result
-                            hfr.locals[gname] = it.eval(self.parse_clause(gexpr), sfr)
+                            # (and the caller's ghosts)
+                            hfr.locals[gname] = it.eval(self.parse_clause(gexpr), efr)
                     except (PyRaise, Infeasible, NeedFork):
                         continue
                     g = self.eval_clause(it, expr, hfr)
@@ -771,7 +774,7 @@ class Engine:
                 ks = keysets.empty_keyset(self, it.ctx, shape)
                 for x in h.items:
                     ks = keysets.add(self, it, ks, x)
-                return it.ctx.alloc(HKeySet(ks)) if not it.ctx.nofork else v
+                return it.ctx.alloc(HKeySet(ks))
         return v
 
     def havoc_path(self, it, sfr, path, c):
